@@ -100,6 +100,7 @@ def run_benign(prop):
     rs = selftest.run_benign_for(prop)
     out = {'refactorings': len(rs), 'silent': sum(1 for r in rs if r['status'] == 'silent-ok'),
            'accepted_alarms': [r['variant'] for r in rs if r['status'] == 'accepted-alarm'],
+           'not_evaluated_within_time_budget': sum(1 for r in rs if r['status'] == 'not-evaluated'),
            'false_alarms': [{'variant': r['variant'], 'fired': r['fired'][:3]} for r in rs if r['status'] == 'FALSE-ALARM']}
     for r in out['false_alarms']:
         print("SELFTEST: behaviour-preserving refactoring %s raised an alarm of %s: %s" % (r['variant'], prop, r['fired'][:2]))
